@@ -27,7 +27,11 @@ Record case := mkCase {
   c_outs : list out;
   (* resolvers of received htlcs: the scenario's script for that key must be
      RestartIncModel.inc_script of these parameters / this branch *)
-  c_inc : list (iparams * bool)
+  c_inc : list (iparams * bool);
+  (* real waits of the implementation: (resolver key, persisted progress of
+     its contract when the goroutine parked, level of the outpoint it parked
+     on: 0 / 1 as s_watch, 8 = exists but other script, 9 = not on chain) *)
+  c_watch : list (N * nat * N)
 }.
 
 Definition out_eqb (a b : out) : bool :=
@@ -51,7 +55,17 @@ Fixpoint list_eqb {A} (eqb : A -> A -> bool) (l1 l2 : list A) : bool :=
   end.
 
 Definition stage_eqb (a b : stage) : bool :=
-  list_eqb out_eqb (s_outs a) (s_outs b) && list_eqb pair_eqb (s_rep a) (s_rep b).
+  list_eqb out_eqb (s_outs a) (s_outs b) && list_eqb pair_eqb (s_rep a) (s_rep b)
+  && N.eqb (s_watch a) (s_watch b).
+
+Definition watch_ok (sc : scen) (x : N * nat * N) : bool :=
+  match find_spec sc (fst (fst x)) with
+  | Some r => match nth_error (r_stages r) (snd (fst x)) with
+              | Some g => N.eqb (s_watch g) (snd x)
+              | None => false
+              end
+  | None => false
+  end.
 
 Definition inc_ok (sc : scen) (x : iparams * bool) : bool :=
   match find_spec sc (ip_key (fst x)) with
@@ -166,6 +180,7 @@ Definition check_case (c : case) : list N :=
     ++ (if seteq out_eqb (outs s') (c_outs c) then [] else [9001%N])
     ++ (if wf_scen sc then [] else [9002%N])
     ++ (if forallb (inc_ok sc) (c_inc c) then [] else [9003%N])
+    ++ (if forallb (watch_ok sc) (c_watch c) then [] else [9004%N])
   | (_, bad) => bad
   end.
 
